@@ -158,12 +158,12 @@ theorem qf_scan_eq (t : St N) (q : Fin N) (r : Nat) (onInsert : Bool) :
       | some s =>
         simp only [Flow.bind_cont]
         by_cases hr : (t.get q).occ
-        · simp only [hr, if_true, qf_searchRun_eq]
+        · simp only [hr, if_true, Bool.not_true, Bool.not_false, Bool.false_eq_true, if_false, Flow.bind_cont, qf_searchRun_eq]
           cases hsr : searchRun t r (N + 1) s with
-          | none => simp [Flow.bind]
+          | none => simp [Flow.bind, qf_searchRun_eq, hsr]
           | some res =>
             obtain ⟨pr, p⟩ := res
-            cases pr <;> simp [Flow.bind]
+            cases pr <;> simp [Flow.bind, qf_searchRun_eq, hsr]
         · simp [hr, Flow.bind]
 
 /-! ### `insert_internal`: slot updates on the four lists -/
